@@ -3,8 +3,9 @@
 (* and what is at the destination, per protocol, with what the design demands at the end of    *)
 (* the behaviour: the offset both ends agree on, the number of units sent again, the final     *)
 (* content.  harness/c08_resume.go materialises each case with the real 10 MiB block size and  *)
-(* runs it through the real code.  With AsCoded = TRUE the export also tells which cases       *)
-(* today's code cannot finish (stuck = TRUE).                                                  *)
+(* runs it through the real code.  With AsCoded = TRUE the export also tells which cases the   *)
+(* code before the empty-source fix could not finish (stuck = TRUE): a real run that times out *)
+(* in exactly that state is a regression, any other time-out is load.                          *)
 EXTENDS Resume, Json, TLCExt
 
 Export ==
